@@ -70,7 +70,7 @@ def worker(unit, emit):
     # numbers whose canonical form itself begins with a prefix that compact() strips (a French VAT number whose alphabetic key
     # spells FR): the doubled prefix with the tail searched for an accepted number -- what validate() returns for it must
     # validate to itself
-    plits = [L for L in inputs.literals(mod, minlen=2, maxlen=3, cap=80) if L.isalpha() and L.isascii() and L.isupper()][:6]
+    plits = [L for L in inputs.literals(mod, minlen=2, maxlen=5, cap=80) if L.rstrip(':').isalpha() and L.isascii() and L.isupper()][:6]
     for base in bases[:2]:
         try:
             v = mod.validate(base)
